@@ -12,21 +12,21 @@ open TM.Conn
 
 /-- **no orphans**: every rerunner that can still run is reachable from `conn.subscriptions`, so
 an unsubscribe or the connection close can stop it -/
-theorem no_orphans (ls : List Label) (s : St) (h : run repaired init ls = some s) :
+theorem no_orphans (ls : List Label) (s : St) (m : Nat) (h : run (repairedWith m) init ls = some s) :
     ∀ rid, alive s rid = true → ∃ e ∈ s.subs, e.rid = rid :=
-  (inv_reachable ls s h).tracked
+  (inv_reachable m ls s h).tracked
 
 /-- **a subscription never ends twice**: the logger never sees two `Unsubscribe` for one rerunner -/
-theorem never_ends_twice (ls : List Label) (s : St) (h : run repaired init ls = some s) (id rid : Nat) :
+theorem never_ends_twice (ls : List Label) (s : St) (m : Nat) (h : run (repairedWith m) init ls = some s) (id rid : Nat) :
     s.log.count (Ev.U id rid) ≤ 1 :=
-  (inv_reachable ls s h).uOnce id rid
+  (inv_reachable m ls s h).uOnce id rid
 
 /-- **every accepted subscription ends exactly once**: once nothing is registered any more (in
 particular after the connection closed), every `Subscribe(id)` the logger saw is matched by
 exactly one `Unsubscribe(id)` of the same subscription -/
-theorem ends_exactly_once (ls : List Label) (s : St) (h : run repaired init ls = some s) (hc : s.subs = [])
+theorem ends_exactly_once (ls : List Label) (s : St) (m : Nat) (h : run (repairedWith m) init ls = some s) (hc : s.subs = [])
     (id rid : Nat) (hs : Ev.S id rid ∈ s.log) : s.log.count (Ev.U id rid) = 1 := by
-  have inv := inv_reachable ls s h
+  have inv := inv_reachable m ls s h
   rcases inv.sPair id rid hs with h1 | h1
   · rw [hc] at h1; cases h1
   · have := List.count_pos_iff.mpr h1
@@ -34,19 +34,19 @@ theorem ends_exactly_once (ls : List Label) (s : St) (h : run repaired init ls =
     omega
 
 /-- a subscription that is still registered has not been reported as ended -/
-theorem open_while_registered (ls : List Label) (s : St) (h : run repaired init ls = some s) (id rid : Nat)
+theorem open_while_registered (ls : List Label) (s : St) (m : Nat) (h : run (repairedWith m) init ls = some s) (id rid : Nat)
     (e : Entry) (he : e ∈ s.subs) (hr : e.rid = rid) : Ev.U id rid ∉ s.log := by
   intro hm
-  exact (inv_reachable ls s h).uGone id rid hm e he hr
+  exact (inv_reachable m ls s h).uGone id rid hm e he hr
 
 /-- after the connection closed nothing is alive: no resolver runs again, nothing is written -/
-theorem closed_all_stopped (ls : List Label) (s : St) (h : run repaired init ls = some s) (hc : s.subs = []) :
+theorem closed_all_stopped (ls : List Label) (s : St) (m : Nat) (h : run (repairedWith m) init ls = some s) (hc : s.subs = []) :
     ∀ rid, alive s rid = false := by
   intro rid
   cases ha : alive s rid with
   | false => rfl
   | true =>
-    obtain ⟨e, he, _⟩ := no_orphans ls s h rid ha
+    obtain ⟨e, he, _⟩ := no_orphans ls s m h rid ha
     rw [hc] at he; cases he
 
 /-- **stops for good**: a rerunner that was stopped never runs (and so never writes) again -/
@@ -56,12 +56,12 @@ theorem quiet_after_end (cfg : Cfg) (s : St) (rid : Nat) (h : rid ∈ s.stopped)
   simp [step, this]
 
 /-- **the duplicate-id rule**: no two registered rerunners share an id, whatever the message order -/
-theorem ids_unique (ls : List Label) (s : St) (h : run repaired init ls = some s) :
-    (s.subs.map (·.id)).Nodup := (inv_reachable ls s h).ids
+theorem ids_unique (ls : List Label) (s : St) (m : Nat) (h : run (repairedWith m) init ls = some s) :
+    (s.subs.map (·.id)).Nodup := (inv_reachable m ls s h).ids
 
 /-- **the subscription limit** -/
-theorem limit_respected (ls : List Label) (s : St) (h : run repaired init ls = some s) :
-    (s.subs.filter fun e => e.kind = .sub).length ≤ repaired.max := (inv_reachable ls s h).limit
+theorem limit_respected (ls : List Label) (s : St) (m : Nat) (h : run (repairedWith m) init ls = some s) :
+    (s.subs.filter fun e => e.kind = .sub).length ≤ m := (inv_reachable m ls s h).limit
 
 /-! ### The histories that went wrong before the repairs (each replayed on the old code by the tie) -/
 
